@@ -458,6 +458,23 @@ def make_solver(kind, dim, npop=None):
     raise ValueError(kind)
 
 
+def apply_init(s, init):
+    """install the initial points described by a case's 'init' entry"""
+    if init['kind'] == 'point':
+        s.SetInitialPoints(FL(init['x0']))
+    elif init['kind'] == 'sampled':
+        # a user-supplied distribution (numpy's global stream, seeded with the case): integer-valued ones included
+        from mystic.math import Distribution
+        if init['dist'] == 'randint':
+            s.SetSampledInitialPoints(Distribution(np.random.randint, int(init['lo']), int(init['hi'])))
+        elif init['dist'] == 'normal':
+            s.SetSampledInitialPoints(Distribution(np.random.normal, F(init['lo']), 1.0))
+        else:
+            s.SetSampledInitialPoints(Distribution(np.random.uniform, F(init['lo']), F(init['hi'])))
+    else:
+        s.SetRandomInitialPoints(FL(init['lo']), FL(init['hi']))
+
+
 def seed_rng(seed):
     from mystic.tools import random_seed
     random_seed(int(seed))
